@@ -121,3 +121,5 @@ End Eval.
 (* the classical interpretation of gamma's vocabulary built from a finite HT pair *)
 Definition fmerge (H T : fpint) : fpint :=
   map (fun a => (String "h"%char (fst a), snd a)) H ++ map (fun a => (String "t"%char (fst a), snd a)) T.
+
+(* EXTRACT: ceval heval fmerge w_general w_sort *)
